@@ -918,3 +918,21 @@ pub fn run_multi(h: &History, cfgs: &[TreeCfg], base: &Path, shared: bool, cache
         })
         .collect()
 }
+
+
+/// Runs a history and leaves the (closed) tree directory in place.
+pub fn run_history_keep(h: &History, dir: &Path) -> String {
+    let mut d = Driver::new(dir, h.cfg.clone());
+    d.dump_enabled = false;
+    if let Err(e) = d.open() {
+        return format!("FATAL open {e}");
+    }
+    for op in &h.ops {
+        let r = std::panic::catch_unwind(std::panic::AssertUnwindSafe(|| d.exec(op)));
+        if r.is_err() {
+            break;
+        }
+    }
+    let _ = std::panic::catch_unwind(std::panic::AssertUnwindSafe(|| d.close()));
+    d.out
+}
